@@ -241,7 +241,7 @@ def normalize (r : RawEvent) : Option Event :=
     let vis := if vis = [] then visPublic else vis
     some ⟨⟨ch, r.ct, no⟩, id, key, t, vis, r.occ, r.pl, r.upd⟩
 
-inductive Err | ok | invalid | cachemiss | notleader
+inductive Err | ok | invalid | cachemiss | notleader | backpressure
 deriving DecidableEq, Repr
 
 /-- table-level entry point on a raw event -/
@@ -266,6 +266,8 @@ def tbatch (db : DB) (rs : List RawEvent) : DB × Option (List Result) :=
 structure Session where
   states : List (Bytes × Lane) := []
   applied : List (Bytes × Result) := []
+  /-- `updated`: logical time of the last touch (the code uses time.Now; only the order matters) -/
+  upd : Nat := 0
 deriving Repr
 
 /-- the part of the routing table the leader cache depends on: the leaders of the two physical
@@ -280,6 +282,10 @@ structure Node where
   db : DB := {}
   cache : List (MsgKey × Session) := []
   route : Route := {}
+  /-- `maxSessions` of the stream cache -/
+  cap : Nat := 4096
+  /-- logical clock: one tick per node-level append -/
+  clock : Nat := 0
 deriving Repr
 
 /-- `routing.HashSlotForKey(channelID, count)` (CRC-32/IEEE mod count; spec of property C21) -/
@@ -311,16 +317,39 @@ def Node.leads (n : Node) (ch : Bytes) : Bool := n.route.leaderOf (hashSlotOf ch
 def cachedLane (ev : Event) : Lane :=
   { status := .open_, seq := 0, lastId := ev.id, lastTy := some ev.ty, vis := ev.vis, occ := ev.occ, upd := ev.upd }
 
-/-- `appendCachedObserved` (session limit not modelled: the harness cache is large) -/
-def appendCached (cache : List (MsgKey × Session)) (ev : Event) : List (MsgKey × Session) × Result :=
+/-- `isMessageEventTerminalCacheSession`: no lane, or every lane terminal -/
+def Session.allTerminal (s : Session) : Bool := s.states.all fun kl => kl.2.status.terminal
+
+/-- the evictable session that was touched least recently -/
+def oldestTerminal : List (MsgKey × Session) → Option (MsgKey × Nat)
+  | [] => none
+  | (k, s) :: t =>
+    match oldestTerminal t with
+    | none => if s.allTerminal then some (k, s.upd) else none
+    | some (k', u') => if s.allTerminal && s.upd < u' then some (k, s.upd) else some (k', u')
+
+/-- `sessionLocked`: admission of a (possibly new) session.  A full cache evicts the least recently
+    touched session whose lanes are ALL terminal; if there is none the event is refused
+    (`ErrBackpressured`) — a session with an open lane is never evicted. -/
+def admit (cache : List (MsgKey × Session)) (cap : Nat) (mk : MsgKey) : Option (List (MsgKey × Session)) :=
+  match aget mk cache with
+  | some _ => some cache
+  | none =>
+    if cache.length < cap then some cache
+    else match oldestTerminal cache with
+      | some (k, _) => some (adel k cache)
+      | none => none
+
+/-- `appendCachedObserved` on an admitted session -/
+def appendCached (cache : List (MsgKey × Session)) (clock : Nat) (ev : Event) : List (MsgKey × Session) × Result :=
   let s := (aget ev.msg cache).getD {}
   match aget ev.id s.applied with
-  | some r => (aput ev.msg s cache, r)
+  | some r => (aput ev.msg { s with upd := clock } cache, r)
   | none =>
     let st := (aget ev.key s.states).getD (cachedLane ev)
     if st.status.terminal then
       let r := resultOf ev.key st
-      (aput ev.msg { s with applied := aput ev.id r s.applied } cache, r)
+      (aput ev.msg { s with applied := aput ev.id r s.applied, upd := clock } cache, r)
     else
       let st1 : Lane := match ev.ty with
         | .delta => { st with status := .open_, snap := reduceDelta st.snap ev.pl }
@@ -328,7 +357,7 @@ def appendCached (cache : List (MsgKey × Session)) (ev : Event) : List (MsgKey 
         | _ => { st with status := .open_ }
       let st2 : Lane := { st1 with lastId := ev.id, lastTy := some ev.ty, vis := ev.vis, occ := ev.occ, upd := ev.upd }
       let r := resultOf ev.key st2
-      (aput ev.msg { states := aput ev.key st2 s.states, applied := aput ev.id r s.applied } cache, r)
+      (aput ev.msg { states := aput ev.key st2 s.states, applied := aput ev.id r s.applied, upd := clock } cache, r)
 
 /-- `cloneJSONRawMessage` of stored snapshot bytes, as a snapshot view
     (non-JSON bytes become a JSON string; the model keeps them as `raw` of the quoted bytes) -/
@@ -383,10 +412,10 @@ def flushEvent (fin : Event) (kl : Bytes × Lane) : Event :=
              pl := mergeTerminal fin.pl kl.2.snap (snapIsJSON kl.2.snap) }
 
 /-- `markTerminalPersisted` -/
-def markPersisted (cache : List (MsgKey × Session)) (ev : Event) (r : Result) : List (MsgKey × Session) :=
+def markPersisted (cache : List (MsgKey × Session)) (clock : Nat) (ev : Event) (r : Result) : List (MsgKey × Session) :=
   match aget ev.msg cache with
   | none => cache
-  | some s => aput ev.msg { states := aput r.key r.state s.states, applied := aput ev.id r s.applied } cache
+  | some s => aput ev.msg { states := aput r.key r.state s.states, applied := aput ev.id r s.applied, upd := clock } cache
 
 /-- `Node.AppendMessageEvent` on the slot leader (`appendMessageEventLocal`) -/
 def nstep (n : Node) (r : RawEvent) : Node × Err × Option Result :=
@@ -396,8 +425,11 @@ def nstep (n : Node) (r : RawEvent) : Node × Err × Option Result :=
     if !n.leads ev.msg.ch then (n, .notleader, none) else
     match ev.ty with
     | .open_ | .delta | .snapshot =>
-      let (c, res) := appendCached n.cache ev
-      ({ n with cache := c }, .ok, some res)
+      match admit n.cache n.cap ev.msg with
+      | none => (n, .backpressure, none)
+      | some c0 =>
+        let (c, res) := appendCached c0 (n.clock + 1) ev
+        ({ n with cache := c, clock := n.clock + 1 }, .ok, some res)
     | .finish =>
       let os := openStates n.cache ev.msg
       if os.isEmpty && !hasSnapshot ev.pl then (n, .cachemiss, none)
@@ -413,7 +445,7 @@ def nstep (n : Node) (r : RawEvent) : Node × Err × Option Result :=
           | none => ev
           | some st => if st.snap = .none then ev else { ev with pl := mergeTerminal ev.pl st.snap (snapIsJSON st.snap) }
       let (db', res) := append n.db ev'
-      ({ n with db := db', cache := markPersisted n.cache ev' res }, .ok, some res)
+      ({ n with db := db', cache := markPersisted n.cache (n.clock + 1) ev' res, clock := n.clock + 1 }, .ok, some res)
 
 /-- loss of the leader's cache (restart, leadership move) -/
 def loseCache (n : Node) : Node := { n with cache := [] }
